@@ -28,7 +28,7 @@ POLICIES = [["collect", "print"], ["collect"], ["collect", "fail"], ["collect", 
 
 
 def generate(rng, i, tier):
-    rows = gen.gen_rows(rng, nasty=rng.random() < 0.3, extra_cells=[" 2", "x ", "  ", " a b "])
+    rows = gen.gen_rows(rng, nasty=rng.random() < 0.3, extra_cells=[" 2", "x ", "  ", " a b "], ws_lines=True)
     modes = {}
     if rng.random() < 0.2:
         modes["return-mode"] = "no-matches"
@@ -55,6 +55,8 @@ def generate(rng, i, tier):
         "dialect": rng.choice([[",", '"']] * 4 + [[";", '"'], [",", "'"]]),
         # every CsvPath of the scenario created by ONE CsvPaths instance (they then share its file cacher)
         "via": rng.random() < 0.3,
+        # blank records are matched like any other line instead of being skipped
+        "keep_blank_lines": rng.random() < 0.12,
     }
 
 
@@ -71,6 +73,8 @@ def reductions(sc):
         yield with_(sc, dialect=[",", '"'])
     if sc.get("via"):
         yield with_(sc, via=False)
+    if sc.get("keep_blank_lines"):
+        yield with_(sc, keep_blank_lines=False)
 
 
 def _st(cp, printed):
@@ -116,10 +120,10 @@ def execute(sc):
         w.write_csv("src/f.csv", sc["rows"], delimiter=delim, quotechar=quote)
         text = gen.render(sc["member"], "src/f.csv")
 
-        shared = ops.new_csvpaths(delim, quote) if sc.get("via") else None
+        shared = ops.new_csvpaths(delim, quote) if (sc.get("via") and not sc.get("keep_blank_lines")) else None
 
         def mk():
-            cp = shared.csvpath() if shared is not None else CsvPath(delimiter=delim, quotechar=quote)
+            cp = shared.csvpath() if shared is not None else CsvPath(delimiter=delim, quotechar=quote, skip_blank_lines=not sc.get("keep_blank_lines"))
             tp = TestPrinter()
             cp.add_printer(tp)
             return cp, tp
@@ -200,6 +204,7 @@ def execute(sc):
         out.sig = [feats, len(yielded), len(sc["rows"]), "".join("b" if r == [] else "r" for r in sc["rows"])[:12], sc["policy"]]
         out.nontrivial = bool(yielded) and (bool(fin["variables"]) or bool(fin["printouts"]) or not fin["is_valid"])
         out.probe("all instances created by one CsvPaths", bool(sc.get("via")))
+        out.probe("skip_blank_lines=False over a file with an interior blank record", bool(sc.get("keep_blank_lines")) and any(r == [] for r in sc["rows"][1:-1]))
         out.probe("stopped before the end of the file", fin["stopped"] and bool(yielded))
         out.probe("errors during the run", bool(fin["errors"]))
         out.log(yielded, fin, len(out.violations))
